@@ -54,6 +54,31 @@ def gen_msg(rng):
     return ['clock', 0, t]      # makes save raise
 
 
+def expected_events(track):
+    """What an SMF track chunk must contain for this model track (independent encoding of the five message
+    kinds the histories use; end_of_track messages folded into one trailing event)."""
+    out = []
+    accum = 0
+    for m in track:
+        if m.type == 'end_of_track':
+            accum += m.time
+            continue
+        d = m.time + accum
+        accum = 0
+        if m.type == 'note_on':
+            out.append((d, 'midi', 0x90 | m.channel, bytes([m.note, m.velocity])))
+        elif m.type == 'set_tempo':
+            out.append((d, 'meta', 0x51, m.tempo.to_bytes(3, 'big')))
+        elif m.type == 'text':
+            out.append((d, 'meta', 0x01, m.text.encode('latin1')))
+        elif m.type == 'track_name':
+            out.append((d, 'meta', 0x03, m.name.encode('latin1')))
+        else:
+            return None
+    out.append((accum, 'meta', 0x2F, b''))
+    return out
+
+
 class Clock:
     def __init__(self):
         self.t = 1000.0
@@ -101,8 +126,17 @@ class History(BaseEngine):
                 ops.append(['edit', e, rng.randrange(1000), rng.randrange(1000),
                             [gen_msg(rng) for _ in range(rng.randint(1, 3))],
                             pick(rng, (0, 1, 7, 480, 1000, 96)), pick(rng, (0, 1, 2, 1, 1))])
-        return {'prop': prop, 'init': init, 'type': pick(rng, (0, 1, 1, 1, 2)), 'tpb': pick(rng, (1, 96, 480)),
+        plan = {'prop': prop, 'init': init, 'type': pick(rng, (0, 1, 1, 1, 2)), 'tpb': pick(rng, (1, 96, 480)),
                 'tracks': tracks, 'ops': ops}
+        if idx % 400 == 5:
+            # a big file: thousands of messages, observed, edited in place (same tracks, same lengths), observed
+            plan.update({'init': 'tracks', 'type': 1, 'bulk': rng.randint(4100, 5000)})
+            plan['tracks'] = [[['tempo', 500000, 0]], [['tempo', 250000, 10]]]
+            e = pick(rng, ('tempo_set', 'msg_note', 'msg_time', 'tempo_set'))
+            plan['ops'] = [['obs', pick(rng, ('length', 'iter')), 1],
+                           ['edit', e, rng.randrange(2), rng.randrange(1000), [gen_msg(rng)], pick(rng, (1, 7, 96)), 1],
+                           ['obs', pick(rng, ('length', 'iter', 'merged')), 1]]
+        return plan
 
     # ---------------------------------------------------------- execution
     def abort_cleanup(self):
@@ -133,6 +167,8 @@ class History(BaseEngine):
     def _make(self, plan):
         """The object under test, built the way the plan says."""
         tracks = [MidiTrack(mk(s) for s in tr) for tr in plan['tracks']]
+        if plan.get('bulk') and tracks:
+            tracks[0].extend(Message('note_on', note=k % 128, time=k % 3) for k in range(plan['bulk']))
         if plan['init'] == 'loaded':
             src = MidiFile(type=1, ticks_per_beat=plan['tpb'], tracks=[MidiTrack(m for m in t if not
                            (not m.is_meta and m.type == 'clock')) for t in tracks])
@@ -441,6 +477,21 @@ class History(BaseEngine):
             if before != mod:
                 raise Violation('contents-diverged', f'after the edits the file holds {before!r}, the plain model '
                                                      f'{mod!r}')
+            if kind == 'save' and res_a[0] == 'ok':
+                # independent reading of what was written: must be the current contents
+                try:
+                    ft, nt, div, wtracks = simdisk.walk_smf(bytes.fromhex(res_a[1]))
+                except simdisk.SMFError as e:
+                    raise Violation('save:image-not-smf', f'saved image cannot be read by the independent walker: {e}')
+                exp = [expected_events(t) for t in model['tracks']]
+                if None not in exp:
+                    got_ev = [[(d, k, a2, bytes(b2)) for d, k, a2, b2 in tr] for tr in wtracks]
+                    if got_ev != exp or ft != model['type'] or div != model['tpb']:
+                        raise Violation('stale:save-vs-contents',
+                                        f'save() wrote {got_ev!r} (type {ft}, division {div}); the file\'s current '
+                                        f'contents are {exp!r} (type {model["type"]}, {model["tpb"]}); edits since the last '
+                                        f'observation: {edits_since}')
+                    stats['save_checked_independently'] += 1
             if res_a != res_f:
                 raise Violation(f'stale:{kind}', f'{kind} on the edited file gave {self._short(res_a)}, a fresh file '
                                                  f'with the same contents gives {self._short(res_f)} (edits since the '
@@ -465,6 +516,8 @@ class History(BaseEngine):
         log.ev('final', self._short(self._observe(a, 'length', 0)))
         if any(op[0] == 'edit' for op in plan['ops']) and any(op[0] == 'obs' for op in plan['ops']):
             stats['_nontrivial'] += 1
+        if plan.get('bulk'):
+            stats['probe:bulk_file'] += 1
 
     def _drop(self, susp):
         g = susp.get('gen')
@@ -515,7 +568,7 @@ class History(BaseEngine):
     def probe_names(self, prop):
         return ['edit_after_observation', 'edit_after_iteration', 'edit_after_length', 'add_track_after_observation',
                 'observation_failed_then_observed_again', 'play_abandoned_then_edited',
-                'suspended_observation_resumed', 'observation_inside_suspended_observation']
+                'suspended_observation_resumed', 'observation_inside_suspended_observation', 'bulk_file']
 
 
 ENGINE = History()
